@@ -566,3 +566,17 @@ Fixpoint strip_suffix (s : string) : string :=     (* "login.0" -> "login" *)
 Definition nm_agrees (globals : list gobj) (nm_symbols unresolved : list string) : bool :=
   forallb (fun s => existsb (fun g => String.eqb (g_name g) (strip_suffix s)) globals) nm_symbols
   && match unresolved with [] => true | _ => false end.
+
+Lemma flat_map_nil_inv {A B} (f : A -> list B) (l : list A) : flat_map f l = [] -> forall x, In x l -> f x = [].
+Proof.
+  induction l as [|a l IH]; simpl; intros H x Hin; [contradiction|].
+  apply app_eq_nil in H as [H1 H2]. destruct Hin as [<-|Hin]; [assumption|now apply IH].
+Qed.
+Lemma globals_ok_all fns gl reach :
+  globals_ok fns gl reach = true -> forall g, In g gl -> exists p, classify fns gl reach g = Some p.
+Proof.
+  unfold globals_ok, unprotected. intros H g Hin.
+  destruct (classify fns gl reach g) as [p|] eqn:E; [eauto|]. exfalso.
+  destruct (flat_map _ gl) eqn:F; [|discriminate].
+  pose proof (flat_map_nil_inv _ _ F g Hin) as Hg. cbv beta in Hg. rewrite E in Hg. discriminate.
+Qed.
